@@ -10,6 +10,7 @@ list; C-level routines that bypass the model see the poison buffer.
 from __future__ import annotations
 
 import re
+from fractions import Fraction
 
 import z3
 
@@ -62,8 +63,27 @@ class T:
         return f"<tok {self.value}>"
 
 
+class OPT:
+    """a blank that is present iff ``cond`` holds (padding whose amount depends on
+    the width of a rendered value).  Concatenation, join, whitespace split / strip
+    keep it symbolic; every other operation decides it by forking (``SymStr.cells``)."""
+
+    __slots__ = ("cond",)
+
+    def __init__(self, cond):
+        self.cond = cond
+
+    def __repr__(self):
+        return "<opt-blank>"
+
+
 def _cell_eq(a, b):
     """bool or z3 Bool"""
+    if isinstance(a, OPT) or isinstance(b, OPT):
+        other = b if isinstance(a, OPT) else a
+        if isinstance(other, str) and other != " ":
+            return False
+        raise Inconclusive("comparison with an undecided optional blank")
     if isinstance(a, str) and isinstance(b, str):
         return a == b
     if isinstance(a, str):
@@ -135,9 +155,9 @@ def _is_ws(cell):
     return isinstance(cell, str) and cell in _WS
 
 
-def cells_of(s):
+def cells_of(s, raw=False):
     if isinstance(s, SymStr):
-        return list(s.cells)
+        return list(s._raw if raw else s.cells)
     if isinstance(s, str):
         if POISON in s:
             raise Inconclusive("poisoned buffer re-entered the string model (a C-level routine bypassed it)")
@@ -161,9 +181,24 @@ def wrap(text):
 class SymStr(str, SymStrBase):
     def __new__(cls, cells, sticky=False):
         self = str.__new__(cls, POISON)
-        self.cells = tuple(cells)
+        self._raw = tuple(cells)
         self.sticky = sticky
         return self
+
+    @property
+    def cells(self):
+        """cells with every optional blank decided (forks once per optional blank)"""
+        raw = self._raw
+        if any(isinstance(c, OPT) for c in raw):
+            out = []
+            for c in raw:
+                if isinstance(c, OPT):
+                    if bool(_to_sb(c.cond)):
+                        out.append(" ")
+                else:
+                    out.append(c)
+            raw = self._raw = tuple(out)
+        return raw
 
     # ---- helpers -------------------------------------------------------
     def _mk(self, cells, other=None):
@@ -196,15 +231,15 @@ class SymStr(str, SymStrBase):
     def __add__(self, o):
         if not isinstance(o, str):
             return NotImplemented
-        return self._mk(list(self.cells) + cells_of(o), o)
+        return self._mk(list(self._raw) + cells_of(o, raw=True), o)
 
     def __radd__(self, o):
         if not isinstance(o, str):
             return NotImplemented
-        return self._mk(cells_of(o) + list(self.cells), o)
+        return self._mk(cells_of(o, raw=True) + list(self._raw), o)
 
     def __mul__(self, n):
-        return self._mk(list(self.cells) * n)
+        return self._mk(list(self._raw) * n)
 
     __rmul__ = __mul__
 
@@ -300,12 +335,43 @@ class SymStr(str, SymStrBase):
         return cnt
 
     # ---- whitespace / padding -----------------------------------------
+    def _decide_separating_blanks(self):
+        """raw cells with the optional blanks that matter for whitespace tokenisation decided:
+        an optional blank next to a certain blank (or at either end) separates nothing by itself
+        and is dropped without forking; one that is the only separator between two non-blank
+        cells is decided by forking."""
+        raw = list(self._raw)
+        if not any(isinstance(c, OPT) for c in raw):
+            return raw
+        out = []
+        n = len(raw)
+        for i, c in enumerate(raw):
+            if not isinstance(c, OPT):
+                out.append(c)
+                continue
+            # nearest certain neighbours (skipping other optional blanks)
+            j = i - 1
+            while j >= 0 and isinstance(raw[j], OPT):
+                j -= 1
+            k = i + 1
+            while k < n and isinstance(raw[k], OPT):
+                k += 1
+            left_blank = j < 0 or _is_ws(raw[j])
+            right_blank = k >= n or _is_ws(raw[k])
+            if left_blank or right_blank:
+                continue  # redundant as a separator
+            if bool(_to_sb(c.cond)):
+                out.append(" ")
+        return out
+
     def _strip(self, chars, left, right):
-        cs = list(self.cells)
+        # whitespace strip: an optional blank inside the stripped run disappears either way (no fork);
+        # interior ones stay symbolic
+        cs = list(self._raw) if chars is None else list(self.cells)
 
         def drop(cell):
             if chars is None:
-                return _is_ws(cell)
+                return _is_ws(cell) or isinstance(cell, OPT)
             return bool(_to_sb(_cell_in(cell, chars)))
 
         i, j = 0, len(cs)
@@ -351,7 +417,7 @@ class SymStr(str, SymStrBase):
         out = []
         if sep is None:
             cur = []
-            cs = list(self.cells)
+            cs = self._decide_separating_blanks()
             i = 0
             while i < len(cs):
                 c = cs[i]
@@ -376,7 +442,8 @@ class SymStr(str, SymStrBase):
         n = len(pc)
         if n == 0:
             raise ValueError("empty separator")
-        cs = list(self.cells)
+        # an optional blank can only ever match a blank: a separator without blanks leaves them symbolic
+        cs = list(self._raw) if all(isinstance(c, str) and c != " " for c in pc) else list(self.cells)
         cur = []
         i = 0
         while i < len(cs):
@@ -397,8 +464,8 @@ class SymStr(str, SymStrBase):
 
     def splitlines(self, keepends=False):
         out, cur = [], []
-        for c in self.cells:
-            if c == "\n":
+        for c in self._raw:
+            if isinstance(c, str) and c == "\n":
                 out.append(self._mk(cur + (["\n"] if keepends else [])))
                 cur = []
             else:
@@ -430,8 +497,8 @@ class SymStr(str, SymStrBase):
         out = []
         for k, it in enumerate(items):
             if k:
-                out.extend(self.cells)
-            out.extend(cells_of(it))
+                out.extend(self._raw)
+            out.extend(cells_of(it, raw=True))
         return self._mk(out)
 
     # ---- character classes --------------------------------------------
@@ -494,7 +561,7 @@ class SymStr(str, SymStrBase):
         return self
 
     def __repr__(self):
-        return "SymStr(" + "".join(c if isinstance(c, str) else "□" if isinstance(c, D) else "◇" if isinstance(c, C) else "⟨num⟩" for c in self.cells) + ")"
+        return "SymStr(" + "".join(c if isinstance(c, str) else "□" if isinstance(c, D) else "◇" if isinstance(c, C) else "⟨num⟩" if isinstance(c, T) else "␣?" for c in self._raw) + ")"
 
     def __format__(self, spec):
         if not spec:
@@ -524,7 +591,7 @@ class SymStr(str, SymStrBase):
 
     # ---- parsing -------------------------------------------------------
     def _numeric_cells(self):
-        cs = list(self.cells)
+        cs = cells_of(self._strip(None, True, True))
         while cs and _is_ws(cs[0]):
             cs.pop(0)
         while cs and _is_ws(cs[-1]):
@@ -624,13 +691,16 @@ class SymStr(str, SymStrBase):
     # ---- concretisation -----------------------------------------------
     def concrete(self, model):
         out = []
-        for c in self.cells:
+        for c in self._raw:
             if isinstance(c, str):
                 out.append(c)
             elif isinstance(c, D):
                 out.append(str(model.eval(c.t, model_completion=True).as_long()))
             elif isinstance(c, C):
                 out.append(chr(model.eval(c.t, model_completion=True).as_long()))
+            elif isinstance(c, OPT):
+                if z3.is_true(model.eval(c.cond.t if isinstance(c.cond, SymBool) else z3.BoolVal(c.cond) if isinstance(c.cond, bool) else c.cond, model_completion=True)):
+                    out.append(" ")
             else:
                 out.append("<num>")
         return "".join(out)
@@ -739,6 +809,47 @@ def format_number(v, spec):
             # token and put one blank on the padded side: token boundaries are
             # what downstream whitespace parsing depends on
             cells = [T(v, typ or "repr", tol)]
+            if typ in ("e", "E") and (width is not None or sign == " "):
+                # exponent notation has a known width: [sign] d [. prec digits] E sign, then two exponent
+                # digits - or three when the rendered exponent is <= -100 or >= 100.  The sign slot of the
+                # ' ' flag and the padding are therefore blanks whose presence depends on the value:
+                # optional-blank cells (decided only where they are the sole separator of two fields).
+                if fill != " ":
+                    raise Inconclusive("non-blank fill on an opaque numeric token")
+                p = int(prec) if prec is not None else 6
+                half_ulp = Fraction(1, 2 * 10**p)
+                a = z3.If(v.t < 0, -v.t, v.t)
+                hi = z3.RealVal(str((10 - half_ulp) * Fraction(10) ** 99))
+                lo = z3.RealVal(str((10 - half_ulp) / Fraction(10) ** 100))
+                three = z3.And(a != 0, z3.Or(a >= hi, a < lo))  # three exponent digits (ties at the two thresholds: measure zero)
+                neg = v.t < 0
+                base = 1 + (1 + p if p else 0) + 2 + 2  # unsigned, two exponent digits
+                lead = []
+                if sign == " ":
+                    lead = [OPT(z3.Not(neg))]  # the token itself starts with '-' when negative
+                    slot = None  # one column always taken
+                    room = (width or 0) - base - 1
+                    extra = [three]
+                elif sign == "+":
+                    room = (width or 0) - base - 1
+                    extra = [three]
+                else:
+                    room = (width or 0) - base
+                    extra = [three, neg]
+                # room blanks minus one per true condition in `extra`
+                pads = []
+                for j in range(1, room + 1):
+                    # blank j (counted from the far end inwards) is present iff  room - (#true) >= j
+                    need = room - j  # at most `need` of the conditions may hold
+                    if need >= len(extra):
+                        pads.append(" ")
+                    elif need == 0:
+                        pads.append(OPT(z3.Not(z3.Or(extra))))
+                    else:  # need == 1, len(extra) == 2
+                        pads.append(OPT(z3.Not(z3.And(extra))))
+                body = lead + cells
+                cells = pads + body if (align or ">") in (">", "=") else body + pads
+                return SymStr(cells)
             if width is not None:
                 if fill != " ":
                     raise Inconclusive("non-blank fill on an opaque numeric token")
@@ -811,7 +922,7 @@ def fstring(*parts):
         out = []
         sticky = False
         for p in parts:
-            out.extend(cells_of(p))
+            out.extend(cells_of(p, raw=True))
             sticky = sticky or getattr(p, "sticky", False)
         return mk(out, sticky)
     return "".join(parts)
@@ -873,6 +984,15 @@ def selftest(pin):
         if got != format(n, spec):
             ok = False
             print("selftest: format int", n, spec, repr(got), repr(format(n, spec)))
+    # exponent notation: blanks around the (opaque) number token, incl. three-digit exponents
+    for spec in ("< 13.5E", "13.5E", "<13.5E", ">14.3e", "< 10.2E", "+12.4e", " .5E", "<+13.5E"):
+        for x in (3e-120, -2.5e105, 1.0, -1.0, 0.0, 9.99999e99, 9.999996e99, 1e100, -1e100, 1e-99, 9.99999e-100, 9.999996e-100, 123.456, -4e-250, 5e-324, 1.7e308):
+            out, model = pin(lambda a: format_number(a, spec), "r", [x])
+            got = out.concrete(model)
+            want = re.sub(r"\S+", "<num>", format(x, spec))
+            if got != want:
+                ok = False
+                print("selftest: format E", x, spec, repr(got), repr(want), repr(format(x, spec)))
     # parse back
     for x, spec in cases_f[:8]:
         def rt(a, spec=spec):
